@@ -19,9 +19,11 @@ namespace Fastor {
 //----------------------------------------------------------------------------------------------------------//
 template<typename T, typename ABI>
 FASTOR_INLINE SIMDVector<T,ABI> min(const SIMDVector<T,ABI> &a, const SIMDVector<T,ABI> &b) {
-    SIMDVector<T,ABI> out;
-    for (FASTOR_INDEX i=0; i<SIMDVector<T,ABI>::Size; i++) { ((T*)&out)[i] = std::min(((T*)&a)[i],((T*)&b)[i]); }
-    return out;
+    // go through store/load rather than casting the vectors to T* (strict aliasing)
+    T a_[SIMDVector<T,ABI>::Size], b_[SIMDVector<T,ABI>::Size];
+    a.store(a_,false); b.store(b_,false);
+    for (FASTOR_INDEX i=0; i<SIMDVector<T,ABI>::Size; i++) { a_[i] = std::min(a_[i],b_[i]); }
+    return SIMDVector<T,ABI>(a_,false);
 }
 template<typename T, typename ABI>
 FASTOR_INLINE SIMDVector<T,ABI> min(const SIMDVector<T,ABI> &a, T b) {
@@ -100,9 +102,11 @@ FASTOR_INLINE SIMDVector<double,simd_abi::avx512> min(const SIMDVector<double,si
 //----------------------------------------------------------------------------------------------------------//
 template<typename T, typename ABI>
 FASTOR_INLINE SIMDVector<T,ABI> max(const SIMDVector<T,ABI> &a, const SIMDVector<T,ABI> &b) {
-    SIMDVector<T,ABI> out;
-    for (FASTOR_INDEX i=0; i<SIMDVector<T,ABI>::Size; i++) { ((T*)&out)[i] = std::max(((T*)&a)[i],((T*)&b)[i]); }
-    return out;
+    // go through store/load rather than casting the vectors to T* (strict aliasing)
+    T a_[SIMDVector<T,ABI>::Size], b_[SIMDVector<T,ABI>::Size];
+    a.store(a_,false); b.store(b_,false);
+    for (FASTOR_INDEX i=0; i<SIMDVector<T,ABI>::Size; i++) { a_[i] = std::max(a_[i],b_[i]); }
+    return SIMDVector<T,ABI>(a_,false);
 }
 template<typename T, typename ABI>
 FASTOR_INLINE SIMDVector<T,ABI> max(const SIMDVector<T,ABI> &a, T b) {
